@@ -307,8 +307,156 @@ let run_tracker_case (idx : int) (toks : string list) =
         (bb (any_execute_of et k)) (bb (one_execute_of et k))) subjects;
   Printf.printf "g anyx=%s\n" (bb (any_execute et))
 
+
+(* ------------------------------------------------------------------ output checkers (exhaustive finite domain) *)
+let n_eqb (a : n) (b : n) : bool = (int_of_n a = int_of_n b)
+let run_checkers () =
+  print_endline "C 0";
+  let outs = List.init 3 (fun v -> (Printf.sprintf "O%d" v, Ok (n_of_int v))) @ List.init 3 (fun v -> (Printf.sprintf "E%d" v, Err (n_of_int v))) in
+  let bb x = if x then "1" else "0" in
+  List.iter (fun (n1, o1) ->
+      List.iter (fun (n2, o2) ->
+          Printf.printf "k %s %s %s\n" n1 n2
+            (String.concat "" (List.init 5 (fun c -> bb (inconsistent n_eqb n_eqb (n_of_int c) o1 o2))))) outs) outs;
+  for a = 0 to 3 do
+    for c = 0 to 3 do
+      (* a non-Result output: EqualsChecker is equality, AlwaysConsistent is constant *)
+      let o1 = Ok (n_of_int a) and o2 = Ok (n_of_int c) in
+      Printf.printf "p %d %d %s%s\n" a c (bb (inconsistent n_eqb n_eqb (n_of_int 0) o1 o2)) (bb (inconsistent n_eqb n_eqb (n_of_int 4) o1 o2))
+    done
+  done
+
+
+(* ------------------------------------------------------------------ map resource probe *)
+let run_map_case (idx : int) (toks : string list) =
+  Printf.printf "C %d\n" idx;
+  let t = { l = toks } in
+  let st = ref ms_init in
+  let o x = match x with Some v -> Printf.sprintf "Some(%s)" (pz v) | None -> "None" in
+  let show l = join "," (List.map (fun (k, v) -> Printf.sprintf "%d=%d" k v) (List.sort compare (List.map (fun (k, v) -> (int_of_n k, int_of_z v)) l))) in
+  while peek t <> None do
+    let op = match next t with
+      | "g" -> let r = num t in let s = num t in MGet (n_of_int r, n_of_int s)
+      | "s" -> let r = num t in let s = num t in let v = num t in MSet (n_of_int r, n_of_int s, z_of_int v)
+      | "d" -> let r = num t in let s = num t in MDefault (n_of_int r, n_of_int s)
+      | "r" -> let kt = num t in let k = num t in MRead (n_of_int kt, n_of_int k)
+      | "w" -> let kt = num t in let k = num t in let v = num t in MInsert (n_of_int kt, n_of_int k, z_of_int v)
+      | "x" -> let kt = num t in let k = num t in MRemove (n_of_int kt, n_of_int k)
+      | "i" -> let kt = num t in let k = num t in let v = num t in MDirect (n_of_int kt, n_of_int k, z_of_int v)
+      | "t" -> let sl = num t in let kt = num t in let k = num t in MStamp (n_of_int sl, n_of_int kt, n_of_int k)
+      | "c" -> MCheck (n_of_int (num t))
+      | x -> failwith ("bad map op " ^ x) in
+    let (ob, st') = mstep !st op in
+    st := st';
+    (match ob with
+     | OGet None -> print_endline "g None"
+     | OGet (Some l) -> Printf.printf "g Some[%s]\n" (show l)
+     | OUnit -> print_endline "u"
+     | ODefault l -> Printf.printf "d [%s]\n" (show l)
+     | ORead v -> Printf.printf "r %s\n" (o v)
+     | OStamp (a, b, c) -> Printf.printf "t %s %s %s\n" (o a) (o b) (o c)
+     | OCheck None -> print_endline "c none"
+     | OCheck (Some i) -> Printf.printf "c %s\n" (if i then "1" else "0"))
+  done
+
+
+(* ------------------------------------------------------------------ key identity probe: the real code with type families must behave like
+   the N-keyed model under the injective renaming (family, value) -> family*100 + value *)
+let run_keys_case (idx : int) (toks : string list) (fuel : nat) =
+  Printf.printf "C %d\n" idx;
+  let inner fam = match fam with 3 | 4 | 5 -> 0 | 6 -> 1 | f -> f in
+  (* collect the program table from the ops *)
+  let rec ops (l : string list) acc = match l with
+    | [] -> List.rev acc
+    | ("q" | "R" | "D" | "b") as o :: f :: v :: tl -> ops tl ((o, int_of_string f, int_of_string v, 0) :: acc)
+    | "E" :: f :: v :: x :: tl -> ops tl (("E", int_of_string f, int_of_string v, int_of_string x) :: acc)
+    | x :: _ -> failwith ("bad key op " ^ x) in
+  let os = ops toks [] in
+  let tkey f v = 10000 + f * 100 + v and rkey f v = 20000 + f * 100 + v and res f v = f * 100 + v in
+  let tb = List.sort_uniq compare (List.filter_map (fun (o, f, v, _) ->
+      match o with
+      | "q" -> Some (tkey f v, `Plain (inner f * 100 + v))
+      | "R" -> Some (rkey f v, `Reader (res f v))
+      | _ -> None) os) in
+  let table = List.map (fun (k, c) -> (n_of_int k, match c with
+      | `Plain o -> CRet (EConst (z_of_int o))
+      | `Reader r -> CRead (n_of_int r, n_of_int 0, CDone))) tb in
+  let w = ref init_world in
+  List.iter (fun (o, f, v, x) ->
+      let step = match o with
+        | "q" -> HSession [SRequire (n_of_int (tkey f v))]
+        | "R" -> HSession [SRequire (n_of_int (rkey f v))]
+        | "E" -> HEdit (n_of_int (res f v), Some (z_of_int x))
+        | "D" -> HEdit (n_of_int (res f v), None)
+        | _ -> HSession [SBottomUp [n_of_int (res f v)]] in
+      let (rs, w') = run_step table fuel !w step in
+      w := w';
+      let execs = match step with HSession _ -> List.length (List.filter (fun e -> match e with EExecStart _ -> true | _ -> false) !w.trace) | _ -> 0 in
+      let r = match rs with
+        | [RDone (Some z)] -> pz z | [RDone None] -> "done" | [] -> "u" | [RAbort k] -> "abort:" ^ akind_text k | _ -> "?" in
+      Printf.printf "o %s x%d\n" r execs) os
+
+
+(* ------------------------------------------------------------------ file checkers probe (the OS is modelled; sha = identity on the byte stream) *)
+let fs_content (size : int) (variant : int) : n list =
+  let v = Array.init size (fun i -> (i * 7 + 3) mod 251) in
+  if size > 0 then begin
+    (match variant with
+     | 1 -> v.(size - 1) <- (v.(size - 1) + 1) land 255
+     | 2 -> v.(0) <- (v.(0) + 1) land 255
+     | 3 -> let p = if size > 8200 then 8197 else size - 1 in v.(p) <- (v.(p) + 1) land 255
+     | _ -> ())
+  end;
+  List.map n_of_int (Array.to_list v)
+let bytes_of_string (s : string) : n list = List.init (String.length s) (fun i -> n_of_int (Char.code s.[i]))
+let parse_pstate (t : toks) : pstate =
+  match next t with
+  | "A" -> Absent
+  | "F" -> let size = num t in let variant = num t in let m = num t in PFile (fs_content size variant, n_of_int m)
+  | "D" -> let m = num t in let k = num t in let names = List.init k (fun _ -> bytes_of_string (next t)) in PDir (names, n_of_int m)
+  | x -> failwith ("bad state " ^ x)
+let rec list_eq a b = match a, b with [] , [] -> true | x :: xs, y :: ys -> int_of_n x = int_of_n y && list_eq xs ys | _ -> false
+let run_fs_case (idx : int) (toks : string list) =
+  Printf.printf "C %d\n" idx;
+  let t = { l = toks } in
+  let s1 = parse_pstate t in
+  if next t <> "|" then failwith "expected |";
+  let s2 = parse_pstate t in
+  let bb x = if x then "1" else "0" in
+  let sha (b : n list) = b in
+  let now = n_of_int 999999 in
+  let rew s r = match s with PFile (c, _) -> bb (list_eq (reader_rest r) c) | _ -> "na" in
+  let writer tag stamp_w stamp_p eq =
+    match open_write s1 now with
+    | None -> Printf.printf "w %s err\n" tag
+    | Some f0 ->
+      let w = fs_content 9000 0 in
+      let f1 = write_bytes f0 w now in
+      Printf.printf "w %s eq=%s content=%s\n" tag (bb (eq (stamp_w f1) (stamp_p f1))) (bb (match f1 with PFile (c, _) -> list_eq c w | _ -> false)) in
+  (* Exists *)
+  let r0 = open_read s1 in
+  Printf.printf "r E eq=%s rew=%s\n" (bb (ex_stamp s1 = ex_stamp_reader r0)) (rew s1 r0);
+  Printf.printf "u E %s\n" (bb (ex_check s1 (ex_stamp s1)));
+  Printf.printf "k E %s\n" (bb (ex_check s2 (ex_stamp s1)));
+  writer "E" ex_stamp_writer ex_stamp (fun a b -> a = b);
+  (* Modified *)
+  Printf.printf "r M eq=%s rew=%s\n" (bb (optN_eqb (mo_stamp s1) (mo_stamp_reader r0))) (rew s1 r0);
+  Printf.printf "u M %s\n" (bb (mo_check s1 (mo_stamp s1)));
+  Printf.printf "k M %s\n" (bb (mo_check s2 (mo_stamp s1)));
+  writer "M" mo_stamp_writer mo_stamp optN_eqb;
+  (* Hash *)
+  let (hr, r1) = ha_stamp_reader sha s1 r0 in
+  Printf.printf "r H eq=%s rew=%s\n" (bb (optH_eqb list_eq (ha_stamp sha s1) hr)) (rew s1 r1);
+  Printf.printf "u H %s\n" (bb (ha_check sha list_eq s1 (ha_stamp sha s1)));
+  Printf.printf "k H %s\n" (bb (ha_check sha list_eq s2 (ha_stamp sha s1)));
+  writer "H" (ha_stamp_writer sha) (ha_stamp sha) (optH_eqb list_eq)
+
 let () =
   match Array.to_list Sys.argv with
+  | _ :: "checkers" :: _ -> run_checkers ()
+  | _ :: "fs" :: file :: _ -> iter_lines file (fun i l -> run_fs_case i (split_ws l))
+  | _ :: "keys" :: file :: _ -> let fuel = nat_of_int 200 in iter_lines file (fun i l -> run_keys_case i (split_ws l) fuel)
+  | _ :: "map" :: file :: _ -> iter_lines file (fun i l -> run_map_case i (split_ws l))
   | _ :: "tracker" :: file :: _ ->
     iter_lines file (fun i l -> run_tracker_case i (split_ws l))
   | _ :: "pie" :: file :: rest ->
